@@ -1,7 +1,7 @@
 ENGINES = [
     {'name': 'E1-enum', 'path': 'mc/engine_enum.py', 'serves_properties': ['C01', 'C02', 'C04', 'C05', 'C06', 'C07', 'C08', 'C09', 'C12', 'C13', 'C14', 'C19', 'C20'],
      'kind_free_text': 'sharded exhaustive enumeration of a finite input/configuration space of the real code against a reference model'},
-    {'name': 'E3-dev', 'path': 'mc/checks/c17.py', 'serves_properties': ['C13', 'C17'],
+    {'name': 'E3-dev', 'path': 'mc/checks/c17.py', 'serves_properties': ['C13', 'C17', 'C18'],
      'kind_free_text': 'deviation-bounded / fault-point enumeration: the harness owns every environment answer (truncation point, corrupted byte, failing write, clock, consumer delay) and enumerates all runs up to a deviation bound'},
     {'name': 'E2-bfs', 'path': 'mc/engine_bfs.py', 'serves_properties': ['C03', 'C04', 'C05', 'C11', 'C15', 'C16'],
      'kind_free_text': 'explicit-state breadth-first search over live implementation objects (state = replayable operation history, canonicalised from the complete vars() of the objects), level-parallel'},
@@ -112,3 +112,9 @@ CHECKS['C11'] = dict(
     technique='breadth-first search over operation histories on 13 live port kinds with the sleep seam as an environment choice point (message arrives / device hangs up / nothing, with a horizon), against a life-cycle reference automaton',
     text='Every history up to depth 5 (7 thorough) of device events, send, poll, non-blocking and blocking receive, iteration, iter_pending, close / with-exit / __del__ and injected device write failures is executed on device doubles (direct and parser style, autoreset, self-closing), EchoPort, the IOPort wrapper and MultiPort. Inside blocking calls each call of ports.sleep is answered from an environment script. The reference automaton tracks per-source FIFO of delivered/taken-in/returned messages, the closed flag, the release counter (exactly one _close) and the 32 reset messages; a blocking call that sleeps while a message is deliverable, a non-blocking call that sleeps, an iteration that raises, a double release are violations.',
     note='Devices are doubles at the documented extension seam; real backends out of reach. Known finding: IOPort wrapper unaware of a self-closed input.')
+
+CHECKS['C18'] = dict(
+    engine='E3-dev', category='fault_enumeration', design_ref='DESIGN.md 5/C18',
+    technique='crash-point enumeration on real sockets: every cut offset of every message stream x segmentations x consumption calls, then peer disconnect; loopback PortServer histories',
+    text='A real SocketPort over socket.socketpair() receives every stream of up to 2 (3) messages cut at every byte offset, delivered in every segmentation (all 2^(n-1) for <= 8 bytes) with poll/iter_pending calls between segments, after which the peer closes or half-closes; the messages received in total must equal the parse of the bytes before the cut, iteration must end silently and the port report closed. Closing the port must give the peer EOF; format/parse_address are checked as inverses; a PortServer on loopback TCP must hand out every message of 0-2 clients exactly once via poll, iter_pending and blocking receive without polling forever.',
+    note='AF_UNIX socketpair is synchronous; the TCP part waits (bounded) for delivery; behaviour of send after the peer has gone is not judged.')
